@@ -4,6 +4,7 @@ config edits / cluster progress / file perturbations), observe the persistent st
 step and compare it with what the Lean world model (GwfModel/World.lean) predicts from the state
 observed BEFORE the step.  Discrepancies are tagged with the property they concern.
 """
+import fnmatch
 import hashlib
 import json
 import os
@@ -331,6 +332,34 @@ def step_status(proj, opts=()):
             "pure": semantic_state(pre) == semantic_state(post), "calls": calls, "ids": proj.ids()}
 
 
+def step_info(proj, patterns=(), fmt="json"):
+    """`gwf info`: the dependency relation as the user sees it"""
+    pre = proj.observe()
+    code, out, err = proj.gwf(["info", "-f", fmt] + list(patterns))
+    post = proj.observe()
+    line, _, _ = proj.model("info", pre)
+    return {"kind": "info", "line": line, "patterns": list(patterns), "fmt": fmt, "code": code, "out": ANSI.sub("", out), "err": err[-400:],
+            "pure": semantic_state(pre) == semantic_state(post), "ids": proj.ids(), "calls": []}
+
+
+def parse_info_pretty(out):
+    """{name: {"Dependents": [...]}} from the pretty format"""
+    res, cur, label = {}, None, None
+    for ln in out.splitlines():
+        if not ln.strip():
+            continue
+        if not ln.startswith(" "):
+            label = ln.strip().rstrip(":")
+            continue
+        v = ln.strip()
+        if label == "Name":
+            cur = v
+            res[cur] = {"Dependents": []}
+        elif label == "Dependents" and cur is not None and v != "-":
+            res[cur]["Dependents"].append(v)
+    return res
+
+
 def step_dry(proj, patterns=()):
     pre = proj.observe()
     proj.cluster.clear_log()
@@ -373,7 +402,7 @@ def step_run(proj, patterns=(), reject_nth=None, backend_cmd=None):
     files_same = (nolog(pre["files"]) == nolog(post["files"]) and nolog(pre["contents"]) == nolog(post["contents"]))
     return {"rejected": rejected, "same": semantic_state(pre) == semantic_state(post), "calls": [e["cmd"] for e in log], "kind": "run", "line": line, "patterns": list(patterns), "code": code, "subs": subs, "err": err[-400:],
             "tracked": post["tracked"], "hashes": post["hashes"], "jobs": post["jobs"], "files_same": files_same,
-            "pre_tracked": pre["tracked"]}
+            "pre_tracked": pre["tracked"], "pre_jobs": pre["jobs"]}
 
 
 def step_touch(proj, patterns=()):
@@ -459,8 +488,37 @@ def compare(p, mline):
         return bad
     if p["code"] != 0 and not (kind in ("clean", "cancel") and p.get("prompted") and p.get("answer") != "y\n") \
             and not (kind == "run" and p.get("rejected")):
-        bad.append(("C05" if kind in ("status", "dry") else {"run": "C02", "touch": "C16", "touchstatus": "C16", "clean": "C15", "cancel": "C17"}[kind],
+        bad.append(("C05" if kind in ("status", "dry") else "C03" if kind == "info" else {"run": "C02", "touch": "C16", "touchstatus": "C16", "clean": "C15", "cancel": "C17"}[kind],
                     "command failed (exit %s): %s" % (p["code"], p["err"][-200:])))
+        return bad
+    if kind == "info":
+        names = id2name(p["ids"])
+        deps, dependents = {}, {}
+        for e in (m.get("info", "").split(";") if m.get("info") else []):
+            t, d, r = e.split(":")
+            deps[names[t]] = sorted(names[x] for x in d.split("+") if x)
+            dependents[names[t]] = sorted(names[x] for x in r.split("+") if x)
+        sel = [n for n in deps if not p["patterns"] or any(fnmatch.fnmatchcase(n, pat) for pat in p["patterns"])]
+        if p["fmt"] == "json":
+            try:
+                obj = json.loads(p["out"])
+            except ValueError:
+                return [("C03", "gwf info printed no JSON: %r" % p["out"][:200])]
+            if sorted(obj) != sorted(sel):
+                bad.append(("C03", "gwf info lists %r, selected %r" % (sorted(obj), sorted(sel))))
+            for n in obj:
+                if n in deps and (sorted(obj[n].get("dependencies", [])) != deps[n] or sorted(obj[n].get("dependents", [])) != dependents[n]):
+                    bad.append(("C03", "gwf info %s: dependencies %r dependents %r; the relation induced by shared paths: %r / %r"
+                                % (n, sorted(obj[n].get("dependencies", [])), sorted(obj[n].get("dependents", [])), deps[n], dependents[n])))
+                    break
+        else:
+            got = parse_info_pretty(p["out"])
+            for n in got:
+                if n in dependents and sorted(got[n]["Dependents"]) != dependents[n]:
+                    bad.append(("C03", "gwf info -f pretty %s: dependents %r, expected %r" % (n, sorted(got[n]["Dependents"]), dependents[n])))
+                    break
+        if not p["pure"]:
+            bad.append(("C05", "gwf info changed the project state"))
         return bad
     if kind == "touchstatus":
         names = id2name(p["ids"])
@@ -483,6 +541,13 @@ def compare(p, mline):
             got = parse_status_table(p["out"])
             if got != exp:
                 bad.append(("C05", "status table differs: shown %r expected %r (options %r)" % (got, exp, p["opts"])))
+                # a row shown with another status although no job in the target's cone is live, failed or
+                # cancelled: the FILE-based decision (C01) is what differs
+                fb = {names[i] for i in m.get("fb", "").split(",") if i in names}
+                wrong = sorted(n for n in got if n in exp and got[n] != exp[n] and n in fb)
+                if wrong:
+                    bad.append(("C01", "targets whose status is decided by files and recorded specs alone are shown %r, expected %r"
+                                % ({n: got[n] for n in wrong}, {n: exp[n] for n in wrong})))
         else:
             counts = {}
             for line in p["out"].splitlines():
@@ -512,6 +577,10 @@ def compare(p, mline):
         got_names = [s["name"] for s in p["subs"]]
         if got_names != exp_names:
             bad.append(("C02", "run submitted %r, model plans %r (patterns %r)" % (got_names, exp_names, p["patterns"])))
+            live = {j["id"] for j in p.get("pre_jobs", []) if j["st"] in ("pending", "running")}
+            dup = sorted(n for n in got_names if n not in exp_names and p.get("pre_tracked", {}).get(n) in live)
+            if dup:
+                bad.append(("C09", "targets whose recorded job is still pending/running were submitted a second time: %r" % dup))
         # when the PLAN differs (C02's business) the tracked ids, the cluster's job list and the recorded
         # hashes necessarily differ too: that is a consequence, not a second defect, and is not attributed
         # to C07 / C18 (their own defects show up in steps whose plan agrees)
